@@ -292,7 +292,7 @@ func recordBranchAgreement(c *core.Ctx, rule string, fn *ssa.Function, recType s
 		missing := 0
 		for _, r := range rets {
 			rec := r.Results[0]
-			if !core.Precedes(fn, r, func(x ssa.Instruction) bool {
+			if !core.PrecedesDeep(fn, r, func(x ssa.Instruction) bool {
 				for _, s := range fields[f] {
 					if s.in == x && core.Same(s.base, rec) {
 						return true
